@@ -331,6 +331,8 @@ Ltac lit_step :=
 Ltac hole_step :=
   match goal with
   | H : tr ?cfg ?m ?t ?m' |- context [run ?cfg (?m, ?st) ?t] => rewrite (H st)
+  | H : tr ?cfg ?m ?t ?m' |- context [run ?cfg (?m2, ?st) ?t] =>
+    let E := fresh "Ehole" in assert (E : run cfg (m2, st) t = (m', st)) by exact (H st); rewrite E; clear E
   end.
 Ltac walk := repeat first [ rewrite run_app | hole_step | lit_step ].
 Ltac split_ifs := repeat match goal with |- context [if ?b then _ else _] => destruct b end.
